@@ -138,9 +138,22 @@ func stepMode(st *Step) string {
 func (o *oracleC01) AfterStep(w *World, st *Step, msgs []sdk.Msg, res *abci.ResponseDeliverTx) {
 	post := readStor(w)
 	cands := w.allBech()
+	// the first message of the transaction is judged in full against the pre-state; further
+	// PostProof messages of a multi-message transaction are only attributed (their pre-state is
+	// inside the transaction and not observable)
 	var pp *storagetypes.MsgPostProof
-	if len(msgs) == 1 {
-		pp, _ = msgs[0].(*storagetypes.MsgPostProof)
+	pp, _ = msgs[0].(*storagetypes.MsgPostProof)
+	alsoAccepted := map[string]bool{} // creator|fkey of later accepted PostProofs in this tx
+	if res.Code == 0 {
+		for i := 1; i < len(msgs); i++ {
+			if m, ok := msgs[i].(*storagetypes.MsgPostProof); ok {
+				var r storagetypes.MsgPostProofResponse
+				if decodeResp(res.Data, i, &r) && r.Success {
+					alsoAccepted[m.Creator+"|"+fkey(m.Merkle, m.Owner, m.Start)] = true
+					o.proved[pkey(m.Creator, m.Merkle, m.Owner, m.Start)] = true
+				}
+			}
+		}
 	}
 	success := false
 	if pp != nil {
@@ -224,6 +237,9 @@ func (o *oracleC01) AfterStep(w *World, st *Step, msgs []sdk.Msg, res *abci.Resp
 				continue
 			}
 			if pp != nil && success && a == pp.Creator && k == fkey(pp.Merkle, pp.Owner, pp.Start) {
+				continue
+			}
+			if alsoAccepted[a+"|"+k] {
 				continue
 			}
 			w.Violate("C01:membership-change-without-cause", "%s became listed on %s in a step (%s) that is not its own accepted proof", a, k, shortKind(msgs))
